@@ -236,6 +236,9 @@ class Interp:
                 return z3.Length(v.e) > 0
             if k == "ref":
                 return z3.BoolVal(True)
+            if k == "float":
+                # python: a float is falsy exactly when it is zero (0.0 / -0.0); Flt is opaque, so this is a predicate
+                return smt.ufunc("flt.nonzero", v.e.sort(), z3.BoolSort())(v.e)
             if k == "dyn":
                 raise OutsideSubset("truthiness of a dynamic value")
         if v is NONE:
